@@ -5,6 +5,11 @@
     `Res.comp`   ResurrectorSink over abstract channels, turn by turn   (Model/Resurrector.lean)
     `Pool.comp`  ResurrectorSink → WatermarkPoolSink → serial Thrift transport, at quiescence,
                  every operation's tasks under an arbitrary schedule    (Model/ResChain.lean)
+    `ResMux.comp` ResurrectorSink → ThriftMux SocketTransportSink (the chain the ThriftMux builder assembles;
+                 no pool in between), at quiescence after every stimulus: connect accepted / refused, each
+                 write and read of the connection (also bursts, and a fault between the dispatch of the
+                 handshake's Rping and the resumption of the opener), the clock with the retry sleep, the 5 s
+                 ping helper and the ping loop, traffic, `Close()`            (Model/ResMux.lean on Model/MuxT.lean)
     `Heap.comp9` HeapBalancerSink over channels whose state the environment sets (Model/Heap.lean,
                  Adapter/HeapC09.lean): the balancer's down list — a member whose channel is Open
                  again takes part in the choice again at the next dispatch (theorems `C09_heap_*`)
@@ -18,6 +23,7 @@
 import ScalesModel.Proofs.ResurrectorFacts
 import ScalesModel.Proofs.ResPoolLemmas
 import ScalesModel.Proofs.HeapC09
+import ScalesModel.Proofs.ResMuxFacts
 namespace Scales.Res
 open Scales.Chain
 
@@ -231,6 +237,174 @@ theorem C09_heap_model_satisfies_spec (ops : List Heap.Op) (h : Heap.comp9.wf ()
   show 0 + Heap.getCount ops < Heap.maxReqs
   unfold Heap.maxReqs; omega
 
+
+/-! ### the ThriftMux stack: ResurrectorSink → SocketTransportSink (component `resmux`)
+
+  Quantification: every configuration with `0 < init ≤ max`, a table of waits growing until capped
+  and a positive ping period; every operation list satisfying `ResMux.comp.wf` (`Open()` once and
+  first, `Close()` once, fresh request ids, I/O outcomes only for a greenlet that is blocked there,
+  the clock never past an instant at which something is due) — every reachability history, every
+  placement of refused connects, write errors, read errors, end-of-stream, bursts, ping silence
+  and `Close()` relative to the handshakes, to traffic and to the retry sleep. -/
+
+/-- **C09, ThriftMux chain, specification level.**  The executable specification evaluated on the
+    real chain's observations accepts the model's history: fail-fast while the connection is down,
+    delays between reconnection attempts growing and capped, an attempt within one maximum interval
+    while the endpoint accepts connections, requests accepted once a handshake was answered, no
+    connect after `Close()`. -/
+theorem C09_mux_chain_model_satisfies_spec (cfg : ResMux.Cfg) (ops : List ResMux.Op)
+    (h : ResMux.comp.wf cfg ops = true) :
+    ResMux.comp.spec cfg (ResMux.comp.modelTrace cfg ops) = .ok :=
+  ResMux.model_satisfies_spec cfg ops h
+
+/-- In every reachable state in fail-fast mode (`_down_on` set) the resurrector has no next sink,
+    and a request is answered FailedFast on the spot: nothing is connected, nothing is written,
+    the state does not change. -/
+theorem C09_mux_failfast_while_down (cfg : ResMux.Cfg) (ops : List ResMux.Op) (h : ResMux.comp.wf cfg ops = true)
+    (hd : (ResMux.runOps cfg.par {} ops).down = true) (id : Nat) :
+    (ResMux.runOps cfg.par {} ops).inst = false ∧
+    ResMux.doReq cfg.par (ResMux.runOps cfg.par {} ops) id =
+      (ResMux.runOps cfg.par {} ops, { dels := [(id, ResMux.RK.ff)] }) := by
+  have hi := (ResMux.reach_inv cfg ops h).dn hd
+  exact ⟨hi.1, by simp [ResMux.doReq, hi.1]⟩
+
+/-- **the fault signal crosses transport → resurrector.**  In every reachable state in which the
+    resurrector is subscribed to its transport, every connection failure of that transport (a
+    refused connect does not arise here; a write that raises, a read that raises or meets
+    end-of-stream — alone or behind other reads of a burst —, five seconds of ping silence; C08's
+    `connFailure`) puts the resurrector into fail-fast mode within the same drain: `_down_on` set, no
+    next sink, the retry greenlet asleep for the initial wait, the balancer notified once, and every
+    request that was in flight handed a ClientError. -/
+theorem C09_mux_fault_reaches_resurrector (cfg : ResMux.Cfg) (ops : List ResMux.Op)
+    (h : ResMux.comp.wf cfg ops = true) (hsub : (ResMux.runOps cfg.par {} ops).sub = true) (op : MuxT.Op)
+    (hf : MuxT.connFailure (ResMux.runOps cfg.par {} ops).tr op = true) :
+    (ResMux.absorb cfg.par (ResMux.runOps cfg.par {} ops)
+        (MuxT.stepOut (ResMux.runOps cfg.par {} ops).tr op).1 (MuxT.stepOut (ResMux.runOps cfg.par {} ops).tr op).2).1.down = true ∧
+    (ResMux.absorb cfg.par (ResMux.runOps cfg.par {} ops)
+        (MuxT.stepOut (ResMux.runOps cfg.par {} ops).tr op).1 (MuxT.stepOut (ResMux.runOps cfg.par {} ops).tr op).2).1.inst = false ∧
+    (ResMux.absorb cfg.par (ResMux.runOps cfg.par {} ops)
+        (MuxT.stepOut (ResMux.runOps cfg.par {} ops).tr op).1 (MuxT.stepOut (ResMux.runOps cfg.par {} ops).tr op).2).1.rg =
+      .sleep ((ResMux.runOps cfg.par {} ops).now + cfg.init) cfg.init ∧
+    (ResMux.absorb cfg.par (ResMux.runOps cfg.par {} ops)
+        (MuxT.stepOut (ResMux.runOps cfg.par {} ops).tr op).1 (MuxT.stepOut (ResMux.runOps cfg.par {} ops).tr op).2).1.ups =
+      (ResMux.runOps cfg.par {} ops).ups + 1 ∧
+    ∀ q ∈ (ResMux.runOps cfg.par {} ops).tr.tagMap,
+      (q.2, ResMux.RK.cerr) ∈ (ResMux.absorb cfg.par (ResMux.runOps cfg.par {} ops)
+        (MuxT.stepOut (ResMux.runOps cfg.par {} ops).tr op).1 (MuxT.stepOut (ResMux.runOps cfg.par {} ops).tr op).2).2.dels := by
+  have hc := ResMux.reach_inv cfg ops h
+  generalize ResMux.runOps cfg.par {} ops = s at *
+  have hdn : s.down = false := by
+    cases hd : s.down with
+    | false => rfl
+    | true => have := (hc.dn hd).2.1; rw [hsub] at this; cases this
+  have hinv := ResMux.inv_of s.tr hc.tr
+  obtain ⟨g1, _, _⟩ := MuxT.shutdown_fails_all_once s.tr op hinv hf
+  obtain ⟨_, g2, _⟩ := MuxT.closed_and_signalled s.tr op hinv hf
+  obtain ⟨a1, a2, _, a4, a5, a6⟩ := ResMux.absorb_fault cfg.par s (MuxT.stepOut s.tr op).1 (MuxT.stepOut s.tr op).2
+    hsub hdn (hc.up hdn) (by omega)
+  refine ⟨a1, a2, a4, a5, ?_⟩
+  intro q hq
+  have := a6 (q.2, Transport.Resp.cerr) (by rw [g1]; exact List.mem_map.mpr ⟨q, hq, rfl⟩)
+  exact this
+
+/-- The retry sleeps follow the back-off: a reconnection attempt whose connect is refused, and one
+    whose handshake fails — whichever step fails it: a write or read error, end-of-stream, five
+    seconds without an Rping, a fault right behind the Rping — is followed at once by a sleep of
+    `min (f w) max`, `w` being the sleep before it.  (The first sleep of a down period lasts the
+    initial wait: `C09_mux_fault_reaches_resurrector`; the sequence grows and is capped:
+    `C09_backoff_monotone_capped`, `C09_backoff_grows_until_capped`.) -/
+theorem C09_mux_backoff_follows_waits (p : ResMux.P) (s : ResMux.St) (w : Nat) (hsub : s.sub = false) :
+    (s.reach = false →
+      (ResMux.resWake p s w).1.rg = .sleep (s.now + nextWait p.r w) (nextWait p.r w) ∧
+      (ResMux.resWake p s w).2.conns = 1) ∧
+    (∀ (t' : MuxT.St) (o : MuxT.Out), s.rg = .opening w → t'.openRes = .failed →
+      (ResMux.absorb p s t' o).1.rg = .sleep (s.now + nextWait p.r w) (nextWait p.r w) ∧
+      (ResMux.absorb p s t' o).1.inst = s.inst ∧ (ResMux.absorb p s t' o).1.down = s.down) := by
+  refine ⟨?_, ?_⟩
+  · intro hr
+    rw [ResMux.resWake_down p s w hr hsub]
+    exact ⟨rfl, rfl⟩
+  · intro t' o hrg hfl
+    obtain ⟨a, b, c, _⟩ := ResMux.absorb_failed p s t' o w hrg hsub hfl
+    exact ⟨a, c, b⟩
+
+/-- **recovery.**  In every reachable fail-fast state whose retry greenlet is asleep, the wake
+    instant is at most one maximum interval ahead.  If the endpoint accepts connections at that
+    instant, the greenlet connects then (one connect); and if the peer takes the Tping and answers
+    it (write ok, header read ok, Rping read), the resurrector leaves fail-fast mode, has the new
+    transport installed and reports Open; the next request is not answered on the spot, is entered
+    in the tag map and queued for transmission (every successful write of the send loop then puts
+    the head of the queue on the wire: `C08_mux_open_carries`). -/
+theorem C09_mux_recovers_within_max (cfg : ResMux.Cfg) (ops : List ResMux.Op) (h : ResMux.comp.wf cfg ops = true)
+    (wk w : Nat) (hr : (ResMux.runOps cfg.par {} ops).rg = .sleep wk w) :
+    (ResMux.runOps cfg.par {} ops).now < wk ∧ wk ≤ (ResMux.runOps cfg.par {} ops).now + cfg.maxW ∧
+    ((ResMux.runOps cfg.par {} ops).reach = true →
+      (ResMux.doTick cfg.par (ResMux.runOps cfg.par {} ops) (wk - (ResMux.runOps cfg.par {} ops).now)).2.conns = 1 ∧
+      (ResMux.doBurst cfg.par (ResMux.doBurst cfg.par (ResMux.doWr cfg.par
+        (ResMux.doTick cfg.par (ResMux.runOps cfg.par {} ops) (wk - (ResMux.runOps cfg.par {} ops).now)).1
+        .ok).1 [(.ok, .junk)]).1 [(.ok, .rping)]).1.down = false ∧
+      (ResMux.doBurst cfg.par (ResMux.doBurst cfg.par (ResMux.doWr cfg.par
+        (ResMux.doTick cfg.par (ResMux.runOps cfg.par {} ops) (wk - (ResMux.runOps cfg.par {} ops).now)).1
+        .ok).1 [(.ok, .junk)]).1 [(.ok, .rping)]).1.inst = true ∧
+      ResMux.stateOf (ResMux.doBurst cfg.par (ResMux.doBurst cfg.par (ResMux.doWr cfg.par
+        (ResMux.doTick cfg.par (ResMux.runOps cfg.par {} ops) (wk - (ResMux.runOps cfg.par {} ops).now)).1
+        .ok).1 [(.ok, .junk)]).1 [(.ok, .rping)]).1 = .opened ∧
+      ∀ id,
+        (ResMux.doReq cfg.par (ResMux.doBurst cfg.par (ResMux.doBurst cfg.par (ResMux.doWr cfg.par
+          (ResMux.doTick cfg.par (ResMux.runOps cfg.par {} ops) (wk - (ResMux.runOps cfg.par {} ops).now)).1
+          .ok).1 [(.ok, .junk)]).1 [(.ok, .rping)]).1 id).2.dels = [] ∧
+        (ResMux.tagOf id, id) ∈ (ResMux.doReq cfg.par (ResMux.doBurst cfg.par (ResMux.doBurst cfg.par (ResMux.doWr cfg.par
+          (ResMux.doTick cfg.par (ResMux.runOps cfg.par {} ops) (wk - (ResMux.runOps cfg.par {} ops).now)).1
+          .ok).1 [(.ok, .junk)]).1 [(.ok, .rping)]).1 id).1.tr.tagMap ∧
+        MuxT.Item.req (ResMux.tagOf id) id ∈ MuxT.qItems (ResMux.doReq cfg.par (ResMux.doBurst cfg.par
+          (ResMux.doBurst cfg.par (ResMux.doWr cfg.par
+          (ResMux.doTick cfg.par (ResMux.runOps cfg.par {} ops) (wk - (ResMux.runOps cfg.par {} ops).now)).1
+          .ok).1 [(.ok, .junk)]).1 [(.ok, .rping)]).1 id).1.tr) := by
+  have h' : ResMux.cfgWF cfg = true := by
+    have := h; simp only [ResMux.comp, Bool.and_eq_true] at this; exact this.1
+  exact ResMux.recovers cfg.par (ResMux.ph_of_cfg cfg h') _ (ResMux.reach_inv cfg ops h) wk w hr
+
+/-- After `Close()` the chain makes no connect attempt, whatever follows: clock ticks past every
+    timer, traffic, the outcome of I/O on a connection whose handshake was still in progress. -/
+theorem C09_mux_closed_stops_connects (cfg : ResMux.Cfg) (ops1 ops2 : List ResMux.Op)
+    (h : ResMux.comp.wf cfg (ops1 ++ ResMux.Op.close :: ops2) = true) :
+    ∀ x ∈ ResMux.comp.trace cfg (ResMux.runOps cfg.par {} (ops1 ++ [ResMux.Op.close])) ops2, x.2.conns = 0 := by
+  have h' : ResMux.cfgWF cfg = true ∧ ResMux.wfGo cfg.par {} false false [] (ops1 ++ ResMux.Op.close :: ops2) = true := by
+    simpa [ResMux.comp, Bool.and_eq_true] using h
+  exact ResMux.closed_stops_connects cfg (ResMux.ph_of_cfg cfg h'.1) ops2 ops1 {} false false []
+    (ResMux.ginv_init cfg.par) h'.2
+
+/-- **a transport that failed while opening is never installed (finding F16).**  In every reachable
+    state in which the retry greenlet is opening a transport whose receive loop waits for a frame's
+    body: if that frame is the handshake's Rping and the read behind it fails before the opener
+    has resumed, the open fails — the resurrector stays in fail-fast mode with no next sink, the
+    transport is closed, and the retry greenlet backs off.  (The code as found reported the
+    transport Open; the resurrector installed it with a closed socket.) -/
+theorem C09_mux_rping_then_fault_is_not_open (cfg : ResMux.Cfg) (ops : List ResMux.Op)
+    (h : ResMux.comp.wf cfg ops = true) (w : Nat) (hr : (ResMux.runOps cfg.par {} ops).rg = .opening w)
+    (hb : (ResMux.runOps cfg.par {} ops).tr.rl = .body) (o : Transport.IOOut) (ho : o ≠ .ok) :
+    (ResMux.doRace cfg.par (ResMux.runOps cfg.par {} ops) .rping o).1.inst = false ∧
+    (ResMux.doRace cfg.par (ResMux.runOps cfg.par {} ops) .rping o).1.down = true ∧
+    (ResMux.doRace cfg.par (ResMux.runOps cfg.par {} ops) .rping o).1.rg =
+      .sleep ((ResMux.runOps cfg.par {} ops).now + nextWait cfg.par.r w) (nextWait cfg.par.r w) ∧
+    (ResMux.doRace cfg.par (ResMux.runOps cfg.par {} ops) .rping o).1.tr.cstate = .closed := by
+  have hc := ResMux.reach_inv cfg ops h
+  generalize ResMux.runOps cfg.par {} ops = s at *
+  obtain ⟨o1, _, _⟩ := hc.og w hr
+  have hdn : s.down = true := by
+    cases hd : s.down with
+    | true => rfl
+    | false => have := hc.up hd; rw [hr] at this; cases this
+  obtain ⟨hin, hsub, _⟩ := hc.dn hdn
+  obtain ⟨ts, tc, _⟩ := ResMux.tstep_race hc.tr hb .rping o ho
+  have hfl := ts.fail o1 tc
+  obtain ⟨a, b, c, _⟩ := ResMux.absorb_failed cfg.par s _ (ResMux.raceT s.tr .rping o).2 w hr hsub hfl
+  obtain ⟨_, f2, _⟩ := ResMux.settle_facts cfg.par s _ ts.inv
+  refine ⟨by show (ResMux.absorb cfg.par s _ _).1.inst = false; rw [c]; exact hin,
+    by show (ResMux.absorb cfg.par s _ _).1.down = true; rw [b]; exact hdn, a, ?_⟩
+  show (ResMux.absorb cfg.par s _ _).1.tr.cstate = _
+  rw [ResMux.absorb_tr, f2]; exact tc
+
 /-! ### the hypotheses are satisfiable -/
 
 /-- three members; 0 and 1 go down one after the other (1 is the head of the down list, 0 behind
@@ -265,5 +439,27 @@ example : comp.wf ⟨5, 60, [5, 7, 10]⟩
 example : Pool.comp.wf ⟨5, 60, [5, 7, 10]⟩
     [.reach false, .opn [], .req false [], .tick 5 [2, 1], .reach true, .tick 7 [], .req true [1], .close []] = true := by
   decide
+
+
+/-- the ThriftMux chain: down at first connect, a refused and an accepted reconnection, the handshake, traffic,
+    end-of-stream, fail-fast, `Close()` while a reconnection's handshake is in progress -/
+example : ResMux.comp.wf ⟨5, 60, [5, 7, 10], 30⟩
+    [.reach false, .opn, .req 1, .tick 5, .reach true, .tick 7, .wr .ok, .rd .ok .junk, .rd .ok .rping, .req 2,
+     .wr .ok, .rd .ok .junk, .rd .ok (.reply 2), .rd .eof .junk, .req 3, .tick 5, .rd .ok .junk, .race .rping .raise, .tick 7,
+     .close, .tick 5, .tick 100] = true := by
+  decide
+
+/-- the specification is not vacuous: the observations of the code as found on the failing replay of F16 (the
+    transport reported Open after `_Shutdown`, the resurrector installed it, a request was accepted) are rejected -/
+example : ResMux.spec ⟨5000000, 60000000, [5000000, 6898648], 30000000⟩
+    [(.reach false, ⟨none, false, .idle, .none, 0, 0, [], [], 0, 0, .idle, [], none⟩),
+     (.opn, ⟨none, true, .closed, .sleep 5000000, 1, 0, [], [], 1, 1, .closed, [], some 5000000⟩),
+     (.reach true, ⟨none, true, .closed, .sleep 5000000, 0, 0, [], [], 1, 1, .closed, [], some 5000000⟩),
+     (.tick 5000000, ⟨none, true, .closed, .opening, 1, 1, [], [], 1, 2, .idle, [], some 5000000⟩),
+     (.rd .ok .junk, ⟨none, true, .closed, .opening, 0, 1, [], [], 1, 2, .idle, [], some 5000000⟩),
+     (.race .rping .raise, ⟨some 1, false, .opened, .none, 0, 0, [], [], 1, 2, .opened, [], some 30000000⟩),
+     (.req 1, ⟨some 1, false, .opened, .none, 0, 0, [], [], 1, 2, .opened, [1], some 30000000⟩)] =
+    .fail "failfast" [V.ofNat 6, V.ofNat 1, V.ofNat 0] := by
+  rfl
 
 end Scales.Res
